@@ -26,7 +26,22 @@ var (
 	c14EasyOnce sync.Once
 )
 
+// c14Uncompilable are rules that the parser accepts and that fail (or are
+// expensive) only when they are compiled on first use - by whichever goroutines
+// reach them first.
+var c14Uncompilable = []string{"/(?!x)a/", "/a{2000}b{2000}/", "/\\p{Nope}/", "/[/", "/ads(?=x)/$important", "@@/(?<n>a)\\k<n>/", "/x(?!y)/$script"}
+
 func c14List(c *core.Ctx) []string {
+	lines := c14ListBase(c)
+	for i, n := 0, 1+c.Rng.Intn(4); i < n; i++ {
+		j := c.Rng.Intn(len(lines) + 1)
+		lines = append(lines[:j], append([]string{c14Uncompilable[c.Rng.Intn(len(c14Uncompilable))]}, lines[j:]...)...)
+	}
+
+	return lines
+}
+
+func c14ListBase(c *core.Ctx) []string {
 	if c.Rng.Intn(4) == 0 {
 		c14EasyOnce.Do(func() { c14Easy = gen.ReadLines(c.Env.RepoDir, "testdata/easylist.txt") })
 		if len(c14Easy) > 3000 {
